@@ -124,7 +124,13 @@ def gen(seed):
                      'default_velocity': rng.choice([0.5, 0.2]), 'default_height': rng.choice([0.5, 1.0]),
                      'controller': rng.choice([None, 1, 2]), 'landing_height': rng.choice([0.0, 0.0, 0.1])})
         ops = gen_hl_prims(rng, n)
-    return {'seed': seed, 'scenario': 'fly-' + which, 'knobs': knobs, 'version': version, 'prog': prog, 'ops': ops}
+    scen = 'fly-' + which
+    if which == 'mc' and rng.random() < 0.15:
+        # long scheduling stalls (a thread that is runnable does not get the CPU for up to 0.3 s while time goes on): only
+        # the clauses that do not depend on timing are judged in these runs (ends with stop + release, nothing afterwards)
+        knobs.update({'p_stall': 0.3, 'stall_window': 0.3, 'line_mean': rng.choice([3, 10])})
+        scen = 'fly-mc-stalled'
+    return {'seed': seed, 'scenario': scen, 'knobs': knobs, 'version': version, 'prog': prog, 'ops': ops}
 
 
 def directed(tier):
@@ -145,6 +151,16 @@ def directed(tier):
                       'prog': {'kind': 'hl', 'with': True, 'raise_at': None, 'x': 0.0, 'y': 0.0, 'z': 0.0,
                                'default_velocity': 0.5, 'default_height': 0.5, 'controller': None, 'landing_height': 0.0},
                       'ops': prims})
+    # long scheduling stalls around the landing: the set-point thread is runnable but does not get the CPU while the
+    # commanding thread stops it and sends the ground commands
+    for v in range(24 if tier == 'quick' else 240):
+        n += 1
+        plans.append({'seed': 995000 + n, 'scenario': 'fly-mc-stalled', 'sched': {'alt': v},
+                      'knobs': {'line_mean': [0, 3, 10][v % 3], 'p_stall': [0.5, 0.8][(v // 3) % 2], 'stall_window': 0.3,
+                                'sleep_jitter': 0.0, 'needs_resending': False, 'lat': (0.001, 0.001)},
+                      'version': 10,
+                      'prog': {'kind': 'mc', 'with': True, 'raise_at': None, 'default_height': 0.3},
+                      'ops': [['forward', 0.2, 0.2]] if v % 2 else []})
     return plans
 
 
@@ -366,6 +382,9 @@ def oracle_mc(ctx, plan, dev, calls, marks, res, jitter):
     tail_check(ctx, dev, calls, res, ['send_stop_setpoint', 'send_notify_setpoint_stop'], 'MotionCommander')
     if prog['raise_at'] is not None and not res.get('body_error_propagated') and 'exc' not in res:
         ctx.violation('1', 'body-exception-swallowed', 'the exception raised in the body did not propagate')
+    if plan['scenario'] == 'fly-mc-stalled':
+        ctx.probe('flight under long scheduling stalls (timing clauses not judged)')
+        return
     hov = [(c[0], c[2]) for c in calls if c[1] == 'send_hover_setpoint']
     if not hov:
         if 'exc' not in res:
